@@ -4,7 +4,7 @@ from vf.core import Gen
 META = dict(
     functions_encoded=["pydra.utils.typing.copy_nested_files (file-set cache, supported_modes arithmetic)", "TypeParser.apply_to_instances",
                        "pydra.utils.mount_identifier.MountIndentifier.on_cifs / on_same_mount (mode restrictions)",
-                       "pydra.engine.job.Job.inputs (h_job_inputs: staging of a task's file inputs)"],
+                       "pydra.engine.job.Job.inputs (h_job_inputs: staging of a task's file inputs)", "pydra.compose.python.PythonTask._run (what the function receives)"],
     stubs=["real files in a scratch directory; fileformats' FileSet.copy performs the real copy/link", "the mount table is supplied through "
            "MountIndentifier.patch_table for the CIFS / cross-mount conditions"],
     outside=["what a copy or a link *is* (independence of a copy, a link showing the original) is fileformats and kernel behaviour: only "
@@ -136,6 +136,56 @@ def _c34_job(m1, m2, pick2, as_list):
     finally:
         E.cleanup(base)
 
+from pydra.compose import python as _py
+import vf.rec as _R
+
+def _pf_body(f, n=3):
+    import vf.rec as R
+    R.rec("PF", [str(x) for x in f] if isinstance(f, list) else str(f), n)
+    return n
+
+_PYTASKS = {}
+for _m in range(3):
+    for _l in (False, True):
+        _PYTASKS[(_m, _l)] = _py.define(_pf_body, inputs={"f": _py.arg(type=list[File] if _l else File, copy_mode=_MODES[_m]), "n": _py.arg(type=int, default=3)},
+                                        outputs={"out": int}, name="PF%d%d" % (_m, _l))
+
+def _c34_python(mode, as_list):
+    """a python task with a file input of the given copy mode: the function must see the file staged accordingly"""
+    base = E.scratch()
+    try:
+        os.makedirs(os.path.join(base, "d0"))
+        p = os.path.join(base, "d0", "a.txt")
+        open(p, "w").write("content-0")
+        src = File(p)
+        cache = os.path.join(base, "cache")
+        os.makedirs(cache)
+        del _R.LOG[:]
+        task = _PYTASKS[(mode, bool(as_list))](f=[src] if as_list else src)
+        task(cache_root=cache, worker="debug")
+        T.reach()
+        seen = [ev for ev in _R.LOG if ev[0] == "PF"]
+        desc = "python task with a file input of copy mode %s%s" % (["any", "copy", "link"][mode], " in a list" if as_list else "")
+        if len(seen) != 1:
+            return "%s: function executed %d times" % (desc, len(seen))
+        got = seen[0][1]
+        if as_list:
+            if not (isinstance(got, list) and len(got) == 1):
+                return "%s: the function received %r" % (desc, got)
+            got = got[0]
+        if open(got).read() != "content-0":
+            return "%s: content of %s differs" % (desc, got)
+        same = os.path.samefile(p, got)
+        if mode == 1 and same:
+            return "%s: the function received the original file itself (%s)" % (desc, got)
+        if mode == 2 and not same:
+            return "%s: the function received an independent copy (%s)" % (desc, got)
+        if mode != 0 and not got.startswith(cache + os.sep):
+            return "%s: the file handed to the function is outside the job directory: %s" % (desc, got)
+        return None
+    finally:
+        E.cleanup(base)
+
 def _c34(codes, outer, copy_mode, cifs):
     base = E.scratch()
     try:
@@ -218,6 +268,10 @@ def build(tier, seed, exclude):
             err = _c34_job(T.real(m1), T.real(m2), T.real(pick2), {as_list})
             return T.fail(err) if err else True
         """, timeout=to)
+    g.cond("h_python_task_inputs", "mode: int, as_list: bool", ["0 <= mode <= 2"], """
+        err = _c34_python(T.real(mode), T.real(as_list))
+        return T.fail(err) if err else True
+    """, timeout=to)
     g.cond("twin_c34", "c0: int", ["2 <= c0 <= 4"], """
         err = _c34([T.real(c0)], 0, 1, False)
         return False
